@@ -238,10 +238,7 @@ theorem irrelevant_none_third (a b x : Char) (r : Str) (hb : b ≠ '.')
     Option.bind_none, Option.none_or, Option.or_none]
   simp only [matchLit]
   by_cases hm : ciMatch 'm' a = true
-  · simp only [hm, if_true, Option.bind_some]
-    split
-    · rename_i e heq; injection heq with e1 _; exact absurd e1 hb
-    · rfl
+  · simp only [hm, if_true, Option.bind_some, afterChar, hb, if_false]
   · simp [hm]
 
 /-- no alternative of `(?:www\d?|mobile|amp|m)\.` matches a label of the two shapes -/
